@@ -351,6 +351,15 @@ def run(pid, tier, seed, jobs):
     merged["shard_seeds"] = [x for x in merged["shard_seeds"] if x >= 0]
     merged["regression_replays"] = reg["evaluations"]
 
+    # optional supplement (e.g. a coverage-guided campaign): extra cases and failures, same bucketing
+    sup = getattr(prop, "supplement", None)
+    if sup is not None:
+        try:
+            extra_cov = sup(tier, seed, jobs, merged, open_sigs)
+        except Exception:
+            extra_cov = {"supplement_error": traceback.format_exc()[-600:]}
+        merged["supplement"] = extra_cov
+
     if merged["n_harness_errors"]:
         print(f"HARNESS-ERROR property={pid} count={merged['n_harness_errors']}", file=sys.stderr)
         for e in merged["harness_errors"][:3]:
@@ -385,9 +394,11 @@ def run(pid, tier, seed, jobs):
         rc = 1
 
     extra = {}
+    if merged.get("supplement"):
+        extra["supplement"] = merged["supplement"]
     hook = getattr(prop, "extra_evidence", None)
     if hook is not None:
-        extra = hook(tier, merged) or {}
+        extra.update(hook(tier, merged) or {})
     write_evidence(prop, pid, tier, seed, merged, time.time() - t0, len(merged["buckets"]), extra)
     lab = ", ".join(f"{k}={v}" for k, v in sorted(merged["labels"].items())[:40])
     print(f"[{pid} {tier} seed={seed}] evaluations={merged['evaluations']} "
